@@ -34,7 +34,7 @@ struct FaultDecision { int action = 0; long long arg_us = 0; }; // 0 pass 1 drop
 struct NodeSpec
 {
 	int fam = 0;            // 0: one v4, 1: one v6, 2: v4 + v6, 3: two v4
-	int nat_ext = -1;       // >= 0: outgoing route passes a NAT with external address 99.0.0.(ext+1)
+	int nat_ext = -1;       // >= 0: outgoing route passes a NAT with external address 99.(30+ext).(ext+1).200
 	std::vector<QSpec> qout, qin;
 };
 
@@ -51,10 +51,12 @@ struct Topology
 
 	static address node_addr(int n, int fam_v6, int k)
 	{
-		if (fam_v6) return sa::ip::make_address_v6(fmt("fd00::%x:%x", n + 1, k + 1).c_str());
-		return sa::ip::make_address_v4(fmt("10.0.%d.%d", n + 1, k + 1).c_str());
+		// all octets / groups pairwise different, so that a swapped or dropped byte in any code that (de)serialises an
+		// address shows; ordered by node index, then by address index
+		if (fam_v6) return sa::ip::make_address_v6(fmt("fd00:%x::%x:%x", 0x20 + n, n + 1, 0x64 + k).c_str());
+		return sa::ip::make_address_v4(fmt("10.%d.%d.%d", 20 + n, n + 1, 100 + k).c_str());
 	}
-	static address nat_addr(int ext) { return sa::ip::make_address_v4(fmt("99.0.0.%d", ext + 1).c_str()); }
+	static address nat_addr(int ext) { return sa::ip::make_address_v4(fmt("99.%d.%d.200", 30 + ext, ext + 1).c_str()); }
 
 	std::vector<address> addrs_of(int n) const
 	{
